@@ -484,6 +484,15 @@ _STOP = None        # multiprocessing.Value shared through fork
 
 
 def run_block(block):
+    """Each block runs in a process forked for it: plasTeX keeps every processed document alive (about 150 kB per
+    fresh interpreter, also after gc.collect()), which would add up to > 1 GB per long-lived pool worker."""
+    st, res = core.run_isolated(_block_child, block, timeout=6 * 3600)
+    if st != 'ok':
+        raise RuntimeError('block %r failed in its child process: %s %s' % (block, st, res))
+    return res
+
+
+def _block_child(block):
     rep = core.Report()
     if _STOP is not None and _STOP.value >= STOP_AFTER:
         rep.count('blocks_skipped_after_violations')
